@@ -23,6 +23,9 @@ def Defects.none : Defects := {}
 structure Env (N : Type) where
   dfx : Defects
   constants : Option (Row N)
+  /-- fault injection (C19): the harness function `VF_FAIL(x)` returns `x`, except that it fails on
+      this argument value -/
+  failOn : Option (Val N) := none
 
 /-- Per-query evaluation context (`*Query` fields read by `Expr`). -/
 structure Ctx (N : Type) where
@@ -310,7 +313,14 @@ def evalExpr (env : Env N) (ctx : Ctx N) (cur : Row N) : Expr N → R (IVal N)
     match q with
     | .none | .scoped => do
       let vs ← evalArgs env ctx cur args
-      if name = "constant" then
+      if name = "vf_fail" then
+        match vs with
+        | [x] =>
+          match env.failOn with
+          | some w => if valEq x w then .error .error else .ok (.v x)
+          | none => .ok (.v x)
+        | _ => .error .error
+      else if name = "constant" then
         match vs, env.constants with
         | [k], some cs => do
           let key ← fmtR k
